@@ -271,20 +271,24 @@ def open_model_check(pid, quick):
     out['pinned_rules_refuted']['VFOpen_MC_pinned_clamp.cfg'] = bool(r['violated'])
     return out, viol
 
-def read_model_check(pid, quick):
-    """VFRead_MC: the decode path of a seekable handle (fetch-and-process, read, raw seek, page seek hand-over, sample-exact seek) over small chained files and
-       every short history of calls - what a read hands out is what the stand-alone decode has at the position reported; and one pinned rule (the
-       discard loop of ov_pcm_seek judging by the FIRST link's long block, as the pinned tree did) that TLC must refute"""
+def read_model_check(pid, quick, which='seek'):
+    """VFRead_MC: the decode path of a vorbisfile handle over small chained files and every short history of calls.
+       which='seek': seekable handle - fetch-and-process, read, raw seek, page seek hand-over, sample-exact seek, half rate: what a read hands out is what the
+       stand-alone decode has at the position reported; pinned rule: the discard loop of ov_pcm_seek judging by the FIRST link's long block;
+       which='stream': streaming handle read to the end - every sample of every link once and in order; pinned rule: the link bound to the serial number of
+       the BOS page in hand instead of the Vorbis stream's.  TLC must refute the pinned rules."""
     out = dict(states=0, transitions=0, configs={}, pinned_rules_refuted={}); viol = []
-    for c in ['VFRead_MC.cfg'] + ([] if quick else ['VFRead_MC_bsizes.cfg', 'VFRead_MC_2.cfg']):
+    if which == 'seek': cfgs = ['VFRead_MC.cfg'] + ([] if quick else ['VFRead_MC_bsizes.cfg', 'VFRead_MC_half.cfg', 'VFRead_MC_2.cfg', 'VFRead_MC_half2.cfg']); pinned = 'VFRead_MC_pinned_vi.cfg'
+    else: cfgs = ['VFRead_MC_stream_q.cfg'] + ([] if quick else ['VFRead_MC_stream.cfg']); pinned = 'VFRead_MC_pinned_ser.cfg'
+    for c in cfgs:
         r = vlib.run_tlc_cached('VFRead_MC.tla', c, workers=8 if quick else 14, timeout=600 if quick else 3000, xmx='4g' if quick else '12g')
         out['configs'][c] = dict(ok=bool(r['ok']), states=r['distinct'], wall_s=round(r['wall'], 1)); out['states'] += r['distinct']; out['transitions'] += r['generated']
         if not r['ok']:
             os.makedirs(vlib.REPLAY, exist_ok=True); p = os.path.join(vlib.REPLAY, f'{pid}-design-{c}.txt'); o = r['out']; i = o.find('Error:'); open(p, 'w').write(o[max(0, i):i + 6000])
-            if r['violated']: viol.append(dict(replay=p, what=f'design-level invariant of VFRead_MC violated under {c}: the decode path as modelled from the current tree reports a position that is not where the audio comes from, refuses an in-range seek or does not end'))
+            if r['violated']: viol.append(dict(replay=p, what=f'design-level invariant of VFRead_MC violated under {c}: the decode path as modelled from the current tree reports a position that is not where the audio comes from, loses or repeats samples, refuses an in-range seek or does not end'))
             else: raise SystemExit(f'TLC failed on {c}: ' + o[-800:])
-    r = vlib.run_tlc('VFRead_MC.tla', 'VFRead_MC_pinned_vi.cfg', workers=4, timeout=600)
-    out['pinned_rules_refuted']['VFRead_MC_pinned_vi.cfg'] = bool(r['violated'])
+    r = vlib.run_tlc('VFRead_MC.tla', pinned, workers=4, timeout=600)
+    out['pinned_rules_refuted'][pinned] = bool(r['violated'])
     return out, viol
 
 def seek_model_check(pid, quick):
@@ -416,12 +420,15 @@ def check_c10(pid, tier, seed, replay=None):
         for init in (1, 27, 58, 4096):
             scs.append(fam_linear(f, mode='stream', name=f'init{init}-{f}', lens=(4096,), extra_pre=[]))
             scs[-1].lines[0] = f'open 0 {fid(f)} stream init={init}'
-    res = run_batch(pid, tier, with_pages(scs), bindir)
-    readmodel = model_fidelity(res, 'VFRead_Trace')
+    with ThreadPoolExecutor(max_workers=2) as ex0:
+        fmc = ex0.submit(read_model_check, pid, quick, 'stream')
+        res = run_batch(pid, tier, with_pages(scs), bindir)
+        mc, extra_viol = fmc.result()
+    readmodel = model_fidelity(res, 'VFRead_Trace'); readmodel['design'] = mc
     rules = READ_RULES | OPEN_RULES | SAFETY_RULES
     return finish(pid, tier, seed, 'model_checking', scs, res, rules, t0,
       'scenario = complete decode of one generated stream through vorbisfile in seekable or streaming mode under one short-read schedule of the read callback (1 byte, random, fixed k, page-boundary +-d, inside-page-header +-d) and one schedule of requested lengths; every delivered chunk is located bit-exactly in the packet-level reference decode; non-trivial = audio delivered; distinct = distinct script text',
-      nontrivial_default, COMMON_ASSUME + ['third access path (packet-level API) is the reference itself'], extra_cov=dict(read_model=readmodel))
+      nontrivial_default, COMMON_ASSUME + ['third access path (packet-level API) is the reference itself'], extra_cov=dict(read_model=readmodel, design_model=dict(states=mc['states'], transitions=mc['transitions'])), extra_viol=extra_viol)
 
 # ---------------------------------------------------------------- C19 lapped seeks / crosslap
 def fam_lapgrid(rng, f, kind, targets, name, pre):
@@ -535,12 +542,13 @@ def check_c20(pid, tier, seed, replay=None):
         if not any(x[0]=='hr' for x in hst): continue
         f = files[i % len(files)]
         scs.append(fam_from_tla(hst, f, f'tlahr{i}-{f}', family='tla-history-hr'))
-    res = run_batch(pid, tier, scs, bindir)
+    res = run_batch(pid, tier, with_pages(scs), bindir)
+    readmodel = model_fidelity(res, 'VFRead_Trace')
     rules = HR_RULES | SEEK_RULES | READ_RULES | SAFETY_RULES | OPEN_RULES
     def nt(s, evs): return any(e.get('e')=='HalfRate' for e in evs) and any(e.get('e')=='ReadF' and e.get('ret',0)>0 and e.get('hs')==1 for e in evs)
     return finish(pid, tier, seed, 'model_checking', scs, res, rules, t0,
       'scenario = call history with ov_halfrate toggled at a chosen point (fresh handle, mid-packet, link end, EOF, after a refused seek, after a raw seek to the end) followed by seeks/reads, plus complete half-rate decodes in seekable and streaming mode; streams include links with synthetic 64- and 128-sample short blocks (refusal case); reads are located bit-exactly in the half-rate packet-level reference; non-trivial = a toggle and at least one half-rate read that delivered; distinct = distinct script text',
-      nt, COMMON_ASSUME + ['bs0=64 links are made by rewriting the short-blocksize field of an encoder-made id header and restamping granule positions (a self-consistent legal stream)'], extra_cov=dict(tla_generator=tl['stats']))
+      nt, COMMON_ASSUME + ['bs0=64 links are made by rewriting the short-blocksize field of an encoder-made id header and restamping granule positions (a self-consistent legal stream)'], extra_cov=dict(tla_generator=tl['stats'], read_model=readmodel))
 
 # ---------------------------------------------------------------- C12 I/O faults
 FAULT_BASES = {
